@@ -152,6 +152,21 @@ impl ModelEvaluator {
   pub fn decision_evaluator(&self) -> Result<RwLockReadGuard<DecisionEvaluator>> {
     self.decision_evaluator.read().map_err(err_read_lock_failed)
   }
+  /// Verification hook (compiled only with `--cfg dmntk_verif`): poison flags of the nine locks.
+  #[cfg(dmntk_verif)]
+  pub fn verif_poisoned(&self) -> [bool; 9] {
+    [
+      self.input_data_evaluator.is_poisoned(),
+      self.input_data_context_evaluator.is_poisoned(),
+      self.item_definition_evaluator.is_poisoned(),
+      self.item_definition_context_evaluator.is_poisoned(),
+      self.item_definition_type_evaluator.is_poisoned(),
+      self.business_knowledge_model_evaluator.is_poisoned(),
+      self.decision_evaluator.is_poisoned(),
+      self.decision_service_evaluator.is_poisoned(),
+      self.invocable_by_name.is_poisoned(),
+    ]
+  }
   /// Evaluates an invocable with specified name.
   pub fn evaluate_invocable(&self, invocable_name: &str, input_data: &FeelContext) -> Value {
     if let Ok(invocable_by_name) = self.invocable_by_name.read() {
